@@ -20,6 +20,7 @@ import Kap.Proofs.C12On
 import Kap.Proofs.C12BatchD
 import Kap.Proofs.C12OnFwd
 import Kap.Proofs.C12OnInvE
+import Kap.Proofs.C12OnOpt3
 namespace Kap.Props.C12
 open Kap.C12 Kap.C12.Spec
 
@@ -332,6 +333,18 @@ without an entry for the group when that parent came first, but not when it came
 theorem on_lowMarkOld_ignores_unreported_first_parent :
     JOn.lowMarkOfOld 2 "g" [((1, "g"), 5)] = some 5 ∧ JOn.lowMarkOfOld 2 "g" [((0, "g"), 5)] = none ∧
     JOn.lowMarkOf 2 "g" [((1, "g"), 5)] = none ∧ JOn.lowMarkOf 2 "g" [((0, "g"), 5)] = none := by decide
+
+/-- **on(): "Option 3" of `matchPoints` is unreachable** — for any number of parents, any low marks and any point from a
+parent in range: the low mark (`JOn.lowMarkOf`, as repaired) is computed AFTER `lowMarks[(p.Src, groupId)] = t` was
+written and is a minimum that includes that entry (or zero), so `t.Before(lowMark)` is false and a specific point
+without a cached match is always cached (option 2), never sent alone at once; it is sent alone later by the purge
+of a following call or by Finish. (An observation about join.go, not a defect: the branch is dead code.) -/
+theorem on_option3_unreachable (parents src : Nat) (gid : String) (t : Int) (lms : List ((Nat × String) × Int))
+    (hs : src < parents) : JOn.beforeMark t (JOn.lowMarkOf parents gid (JOn.lmUpsert (src, gid) t lms)) = false :=
+  JOn.beforeMark_own_lowMark parents src gid t lms hs
+
+/-- Non-vacuity: with both parents reported the low mark is the minimum, here the point's own time. -/
+example : JOn.lowMarkOf 2 "g" (JOn.lmUpsert (0, "g") 5 [((1, "g"), 9), ((0, "g"), 3)]) = some 5 := by decide
 
 /-- **on(): `matchPoints` is a transducer in front of the plain join** — for EVERY arrival order, any number of
 parents, any times: no decision of `matchPoints` depends on the state of the join groups, and the join sets a
